@@ -195,5 +195,8 @@ class ClohessyWiltshire(AnalyticalPropagator):
 
         new = evol_mat @ orb + accel_mat @ accel
         new.date = orb.date + dt
+        # Every point handed out is extrapolable on its own : the points of one
+        # propagation do not share a propagator object
+        new.propagator = self.copy()
 
         return new
